@@ -1555,7 +1555,25 @@ func (c *Ctx) marksOwnRecord(fn *ssa.Function) bool {
 				case *ssa.BinOp:
 					visit(x.X, d+1)
 					visit(x.Y, d+1)
+				case *ssa.Extract:
+					// a component of what a pure arithmetic helper of the module computes from
+					// its arguments (the range to mark, from the position and the window)
+					if hc, ok := x.Tuple.(*ssa.Call); ok {
+						if h := hc.Call.StaticCallee(); h != nil && inModule(h) && pureArithmetic(h) {
+							for _, a := range hc.Call.Args {
+								visit(a, d+1)
+							}
+							return
+						}
+					}
+					fromState = false
 				case *ssa.Call:
+					if h := x.Call.StaticCallee(); h != nil && inModule(h) && pureArithmetic(h) {
+						for _, a := range x.Call.Args {
+							visit(a, d+1)
+						}
+						return
+					}
 					if calleeName(&x.Call) == "sync/atomic.LoadUint64" && len(x.Call.Args) == 1 {
 						if ia, ok := x.Call.Args[0].(*ssa.IndexAddr); ok && addrIntoField(ia, tCom, "RemoteSequenceNumber") {
 							return
@@ -1582,4 +1600,35 @@ func (c *Ctx) marksOwnRecord(fn *ssa.Function) bool {
 		}
 	}
 	return n > 0
+}
+
+// pureArithmetic: the function computes integers from its integer parameters and constants by
+// arithmetic, comparisons, conversions and the min/max builtins - no memory, no other calls.
+func pureArithmetic(fn *ssa.Function) bool {
+	if len(fn.Blocks) == 0 {
+		return false
+	}
+	for _, p := range fn.Params {
+		if _, _, ok := isIntLike(p.Type()); !ok {
+			return false
+		}
+	}
+	for _, b := range fn.Blocks {
+		for _, in := range b.Instrs {
+			switch x := in.(type) {
+			case *ssa.BinOp, *ssa.Convert, *ssa.Phi, *ssa.If, *ssa.Jump, *ssa.Return, *ssa.DebugRef, *ssa.ChangeType:
+			case *ssa.UnOp:
+				if x.Op == token.MUL || x.Op == token.ARROW {
+					return false
+				}
+			case *ssa.Call:
+				if nm := calleeName(&x.Call); nm != "builtin:min" && nm != "builtin:max" {
+					return false
+				}
+			default:
+				return false
+			}
+		}
+	}
+	return true
 }
